@@ -1842,6 +1842,121 @@ Proof.
   apply (sp_get_some _ _ _ HS Ge).
 Qed.
 
+(* ---- what GetUpdate hands out, in every reachable state ---- *)
+Lemma in_firstn_nth {A} n (l : list A) e : In e (firstn n l) -> exists k, (k < n)%nat /\ nth_error l k = Some e.
+Proof.
+  intros H. apply In_nth_error in H as [k K]. destruct (Nat.lt_ge_cases k n) as [Hl|Hl].
+  - exists k. split; auto. rewrite nth_error_firstn_lt in K; auto.
+  - rewrite nth_error_firstn_ge in K by auto. discriminate.
+Qed.
+
+Lemma sp_to_apply_mem sp limit l : SI sp -> sp_to_apply sp limit = Ok l ->
+  log_ok (sp_first_not_applied sp) l /\
+  forall e, In e l -> sp_get sp (e_index e) = Some e /\ sp_processed sp < e_index e /\ e_index e <= sp_committed sp.
+Proof.
+  intros HS. unfold sp_to_apply, sp_has_to_apply.
+  destruct (sp_first_not_applied sp <? sp_committed sp + 1) eqn:E.
+  2:{ intros H. inversion H. split; [apply log_ok_nil|]. intros e []. }
+  pose proof (si_mp _ HS). pose proof (si_pc _ HS). pose proof (si_cl _ HS).
+  unfold sp_first_not_applied, sp_first in *. set (lo := N.max (sp_processed sp + 1) (sp_mi sp + 1)) in *.
+  unfold sp_entries, sp_first.
+  destruct (sp_committed sp + 1 <? lo) eqn:E0; [lia|].
+  destruct (sp_snap sp && is_nil (sp_ents sp)); [discriminate|].
+  destruct (lo <? sp_mi sp + 1) eqn:E1; [lia|].
+  destruct (sp_last sp + 1 <? sp_committed sp + 1) eqn:E2; [lia|].
+  destruct (lo =? sp_committed sp + 1) eqn:E3; [lia|].
+  intros Hx. inversion Hx; clear Hx.
+  set (A := sp_slice sp lo (sp_committed sp + 1)) in *.
+  assert (HL : length A = N.to_nat (sp_committed sp + 1 - lo)) by (apply slice_len; lia).
+  assert (HA : A <> []) by (destruct A; cbn in HL; [lia|congruence]).
+  destruct (limit_size_prefix A limit HA) as [n Hn]. rewrite Hn. split.
+  - apply log_ok_firstn. apply slice_log; auto. lia.
+  - intros e He. apply in_firstn_nth in He as (k & Hk & K).
+    assert (k < length A)%nat by (apply nth_error_Some; congruence).
+    unfold A in K. rewrite slice_nth in K by lia.
+    destruct (sp_get_some _ _ _ HS K) as (X & _). rewrite X. split; [exact K|]. lia.
+Qed.
+
+Lemma get_update_props limit w sp more la : R w sp -> w_limit w = limit ->
+  exists ud, get_update w more la = Ok ud /\ ud_save ud = sp_to_save sp /\
+    (forall e, In e (ud_apply ud) ->
+       sp_get sp (e_index e) = Some e /\ sp_processed sp < e_index e /\ e_index e <= sp_committed sp
+       /\ (e_index e <= sp_saved sp \/ In e (ud_save ud))) /\
+    (ud_fast ud = true -> forall e, In e (ud_apply ud) -> e_index e <= sp_saved sp).
+Proof.
+  intros HR Hlim. pose proof (r_si _ _ HR) as HS.
+  pose proof (si_mp _ HS). pose proof (si_pc _ HS). pose proof (si_cl _ HS). pose proof (si_ps _ HS). pose proof (si_sl _ HS).
+  destruct (sp_to_apply_ok sp limit HS) as (l & Hl & Hlp).
+  destruct (sp_to_apply_mem sp limit l HS Hl) as (Llog & Lmem).
+  destruct (to_save_facts sp HS) as (SL & SN & SF).
+  remember (if more then l else []) as apl eqn:Eapl.
+  assert (Happ : (if more then el_to_apply (w_el w) (w_lr w) (w_st w) (w_limit w) else Ok []) = Ok apl).
+  { subst apl. destruct more; [|reflexivity]. rewrite Hlim, (v_to_apply _ _ _ HR). exact Hl. }
+  assert (Hap : apl <> [] -> sp_processed sp < e_index (last_entry apl) /\ e_index (last_entry apl) <= sp_committed sp).
+  { subst apl. destruct more; [exact Hlp|congruence]. }
+  assert (Alog : log_ok (sp_first_not_applied sp) apl) by (subst apl; destruct more; [exact Llog|apply log_ok_nil]).
+  assert (Amem : forall e, In e apl -> sp_get sp (e_index e) = Some e /\ sp_processed sp < e_index e /\ e_index e <= sp_committed sp).
+  { subst apl. destruct more; [exact Lmem|intros e []]. }
+  unfold get_update. cbv zeta. rewrite Happ, (v_to_save _ _ HR), (r_c _ _ HR). cbn [bind].
+  assert (HV : forall cm, (cm = 0 \/ cm = sp_committed sp) -> validate_update cm apl (sp_to_save sp) = None).
+  { intros cm Hcm. unfold validate_update.
+    destruct apl as [|a apl'] eqn:Ea; [cbn [is_nil negb]; rewrite !andb_false_r; reflexivity|]. rewrite <- Ea in *.
+    destruct Hap as (A1 & A2); [congruence|].
+    assert (Hn1 : is_nil apl = false) by (rewrite Ea; reflexivity). rewrite Hn1. cbn [negb].
+    destruct ((0 <? cm) && true && (cm <? e_index (last_entry apl))) eqn:C1; [lia|].
+    destruct (sp_to_save sp) as [|s0 S'] eqn:Es; [reflexivity|]. rewrite <- Es in *.
+    destruct SF as (F1 & _); [congruence|]. rewrite F1.
+    assert (Hn2 : is_nil (sp_to_save sp) = false) by (rewrite Es; reflexivity). rewrite Hn2. cbn [negb andb].
+    destruct (sp_last sp <? e_index (last_entry apl)) eqn:C2; [lia|]. reflexivity. }
+  rewrite HV by (destruct (sp_committed sp =? w_prev w); auto).
+  eexists; split; [reflexivity|]. cbn [ud_save ud_apply ud_fast]. split; [reflexivity|]. split.
+  - intros e He. destruct (Amem e He) as (G1 & G2 & G3). repeat split; auto.
+    destruct (N.le_gt_cases (e_index e) (sp_saved sp)) as [X|X]; [left; exact X|right].
+    unfold sp_to_save. unfold sp_get in G1. destruct (e_index e <=? sp_mi sp) eqn:E; [discriminate|].
+    apply (nth_error_In _ (N.to_nat (e_index e - sp_mi sp - 1) - N.to_nat (sp_saved sp - sp_mi sp))%nat).
+    rewrite nth_error_skipn. rewrite <- G1. f_equal. lia.
+  - assert (Hsnapv : match im_snap (el_im (w_el w)) with Some (0, _) => None | s => s end
+                     = if sp_snap sp then Some (sp_mi sp, sp_mt sp) else None).
+    { rewrite (r_snap _ _ HR). destruct (sp_snap sp) eqn:Es; [|reflexivity].
+      destruct (si_snap _ HS Es) as (_ & X). destruct (sp_mi sp); [lia|reflexivity]. }
+    rewrite Hsnapv. unfold fast_apply. destruct (sp_snap sp); [discriminate|].
+    destruct apl as [|a apl'] eqn:Ea; [intros _ e []|]. rewrite <- Ea in *.
+    assert (Hne : apl <> []) by congruence. destruct (Hap Hne) as (A1 & A2).
+    assert (Hle : forall e, In e apl -> e_index e <= e_index (last_entry apl)).
+    { intros e He. apply In_nth_error in He as [k K]. destruct (Alog _ _ K) as (X & _).
+      assert (k < length apl)%nat by (apply nth_error_Some; congruence).
+      rewrite (log_ok_last _ _ Alog Hne). unfold nlen. lia. }
+    destruct (sp_to_save sp) as [|s0 S'] eqn:Es.
+    + rewrite nlen_nil in SN. intros _ e He. specialize (Hle e He). lia.
+    + rewrite <- Es in *. destruct SF as (F1 & _); [congruence|].
+      assert (H0i : e_index s0 = sp_saved sp + 1) by (rewrite Es in SL; apply (log_ok_hd _ _ _ SL)).
+      rewrite Ea. rewrite <- Ea. rewrite H0i, F1. intros Hf e He. specialize (Hle e He).
+      destruct ((sp_saved sp + 1 <=? e_index (last_entry apl)) && (e_index (last_entry apl) <=? sp_last sp)) eqn:C; [discriminate|]. lia.
+Qed.
+
+(* an entry is never handed out for apply before it is committed and handed out
+   for persistence (or already saved); FastApply updates apply saved entries only;
+   validateUpdate never fires: GetUpdate succeeds in every reachable state *)
+Theorem apply_only_committed_and_handed_to_persist_proved : forall mi mt ents c limit ops w',
+  wf_init mi mt ents c = true ->
+  wf_ops limit (sp_init mi mt ents c) ops = true ->
+  run (w_init mi mt ents c limit) ops = Ok w' ->
+  let sp' := sp_run limit (sp_init mi mt ents c) ops in
+  forall more la, exists ud, get_update w' more la = Ok ud /\
+    (forall e, In e (ud_apply ud) ->
+       e_index e <= el_committed (w_el w') /\ sp_get sp' (e_index e) = Some e /\
+       (e_index e <= im_saved (el_im (w_el w')) \/ In e (ud_save ud))) /\
+    (ud_fast ud = true -> forall e, In e (ud_apply ud) -> e_index e <= im_saved (el_im (w_el w'))).
+Proof.
+  intros mi mt ents c limit ops w' Hi Hwf Hrun sp' more la.
+  destruct (run_init limit mi mt ents c ops Hi Hwf) as (w'' & Hr & HR & Hl).
+  rewrite Hrun in Hr. inversion Hr; subst w''. fold sp' in HR.
+  destruct (get_update_props limit w' sp' more la HR Hl) as (ud & G1 & G2 & G3 & G4).
+  exists ud. split; [exact G1|]. rewrite (r_c _ _ HR), (r_s _ _ HR). split.
+  - intros e He. destruct (G3 e He) as (X1 & X2 & X3 & X4). repeat split; auto.
+  - exact G4.
+Qed.
+
 (* the earlier, weaker statements (appends and commitTo only) stay visible: they are
    now corollaries *)
 Definition core_op (o : op) : bool :=
